@@ -17,7 +17,7 @@ GUARD = 2e-5
 RULE = ('cases = a system (Li atoms hopping between labelled sites + framework atoms, 12-30 frames, 2^-12 grid, 5 lattice classes) and four transformed copies: '
         'rigid rotation of the lattice matrix, common translation of atoms and sites by multiples of 1/8 (wrapping through faces), permutation of the atoms, '
         'permutation of the sites; on every copy the whole pipeline is run (states, events, jumps, matrix, jump diffusivity, collective counts, species RDF, metrics, '
-        'and for cubic cells density volume, free energy and an optimal-path cost) and compared with the relabelled / rolled result of the original; the Coq tie checks '
+        'density volume and free energy (for non-cubic cells on the rotated and permuted copies, at a resolution where the grid shape is robust), and for cubic cells also the translated copy and an optimal-path cost) and compared with the relabelled / rolled result of the original; the Coq tie checks '
         'the commuting square for the site states and the volume on exact geometry; systems with an atom-frame within 2e-5 of a sphere surface are skipped and counted; '
         'non-trivial = the original run has at least one jump')
 TRUSTED = ['per-function ties of C02-C12 connect each stage to its model; this check adds the metamorphic comparison on the implementation']
@@ -122,8 +122,9 @@ def _pipeline(m, rot, li, fw, sites8, labels, cubic):
     out['rdf'] = [float(v) for v in r.y]
     mt = traj.filter('Li').metrics()
     out['metrics'] = [float(mt.tracer_diffusivity(dimensions=3)), float(mt.particle_density()), float(mt.vibration_amplitude())]
-    if cubic:
-        vol = traj.filter('Li').to_volume(resolution=0.99)     # 8 voxels per axis also when a rotated cell length is 7.999999999999999
+    res = 0.99 if cubic is True else cubic                    # cubic: 8 voxels per axis also when a rotated cell length is 7.999999999999999
+    if res:
+        vol = traj.filter('Li').to_volume(resolution=res)
         out['vol'] = vol.data.tolist()
         with np.errstate(divide='ignore'):
             fe = vol.get_free_energy(500.0)
@@ -133,24 +134,35 @@ def _pipeline(m, rot, li, fw, sites8, labels, cubic):
     return out
 
 
+def _generic_resolution(m):
+    """a voxel resolution for which the grid shape of this (non-cubic) cell is robust against the last-bit changes of the cell lengths under rotation"""
+    lengths = [math.sqrt(sum(c * c for c in row)) for row in m]
+    for res in (0.7, 0.83, 0.61):
+        if all(1e-6 < (L / res) % 1 < 1 - 1e-6 for L in lengths):
+            return res
+    return None
+
+
 def _run(case):
     rot = synth.rotation(random.Random(case['rseed']))
     m, li, fw, s8, lab = case['m'], case['li'], case['fw'], case['sites8'], list(case['labels'])
     res = {}
-    res['base'] = _pipeline(m, None, li, fw, s8, lab, case['cubic'])
-    res['rot'] = _pipeline(m, rot, li, fw, s8, lab, case['cubic'])
+    vm = case['cubic'] or _generic_resolution(m)        # True (cubic, 8^3 voxels) / resolution for a non-cubic cell / None
+    vt = case['cubic'] or None                          # translated copy: only when the shift is a whole number of voxels (cubic 8^3 grid)
+    res['base'] = _pipeline(m, None, li, fw, s8, lab, vm)
+    res['rot'] = _pipeline(m, rot, li, fw, s8, lab, vm)
     sh = [c * 512 for c in case['shift8']]
     li_t = [[[p[k] + sh[k] for k in range(3)] for p in fr] for fr in li]
     fw_t = [[[p[k] + sh[k] for k in range(3)] for p in fr] for fr in fw]
     s8_t = [[(p[k] + case['shift8'][k]) % 8 for k in range(3)] for p in s8]
-    res['trans'] = _pipeline(m, None, li_t, fw_t, s8_t, lab, case['cubic'])
+    res['trans'] = _pipeline(m, None, li_t, fw_t, s8_t, lab, vt)
     pa = case['perm_a']
     li_p = [[fr[pa[a]] for a in range(len(pa))] for fr in li]          # new atom a is old atom pa[a]
-    res['perm_atoms'] = _pipeline(m, None, li_p, fw, s8, lab, case['cubic'])
+    res['perm_atoms'] = _pipeline(m, None, li_p, fw, s8, lab, vm)
     ps = case['perm_s']
     s8_p = [s8[ps[k]] for k in range(len(ps))]                          # new site k is old site ps[k]
     lab_p = [lab[ps[k]] for k in range(len(ps))]
-    res['perm_sites'] = _pipeline(m, None, li, fw, s8_p, lab_p, case['cubic'])
+    res['perm_sites'] = _pipeline(m, None, li, fw, s8_p, lab_p, vm)
     return res
 
 
@@ -212,7 +224,12 @@ def oracle(case, out):
         if tol is None:
             ok = want == got
         else:
-            ok = want is not None and got is not None and np.allclose(np.array(want, dtype=float), np.array(got, dtype=float), rtol=tol, atol=1e-300)
+            ok = want is not None and got is not None
+            if ok:
+                wa, ga = np.array(want, dtype=float), np.array(got, dtype=float)
+                ok = wa.shape == ga.shape and bool(np.allclose(wa, ga, rtol=tol, atol=1e-300))
+                if wa.shape != ga.shape:
+                    want, got = f'shape {wa.shape}', f'shape {ga.shape}'
         if not ok:
             fs.append((f'invariance/{kind}:{key}', f'{key} changes under {kind}: {str(got)[:120]} vs expected {str(want)[:120]} (lattice {case["m"]})'))
 
@@ -240,7 +257,7 @@ def oracle(case, out):
             cmp(kind, 'collective', [b['solo'], b['ncoll']], [o.get('solo'), o.get('ncoll')])
         cmp(kind, 'rdf', b['rdf'], o.get('rdf'), 1e-9)
         cmp(kind, 'metrics', b['metrics'], o.get('metrics'), 1e-9)
-        if case['cubic'] and 'vol' in b:
+        if 'vol' in b and (case['cubic'] or kind != 'trans'):
             v = np.array(b['vol'])
             f = np.array(b['fe'])
             if kind == 'trans':
